@@ -62,12 +62,6 @@ theorem filter_id_length_eq_zero (l : List Bool) :
 
 /-! ## late creation -/
 
-/-- the event `e`, taken in state `s`, is a worker leaving phase `.start` (that is: creating its
-temporary file) although the SIGINT handler has already run -/
-def lateCreate (s : St) : Ev → Bool
-  | .work i => s.handlerRan && (s.phase.getD i .done == .start)
-  | _ => false
-
 /-- `noLate ul df s evs`: along the run of `evs` from `s` (as far as it is defined) no event is a
 late creation. It is a boolean function of the run's intermediate states. -/
 def noLate (ul df : Bool) (s : St) : List Ev → Bool
@@ -443,5 +437,102 @@ theorem inv1_run {s evs s'} (h : run true true s evs = some s') (h0 : Inv0 s) (h
 theorem leftovers_zero_of_noLate {n evs s} (h : run true true (init n) evs = some s)
     (hex : s.exited = true) (hl : noLate true true (init n) evs = true) : leftovers s = 0 :=
   (leftovers_eq_zero_iff s).2 ((inv1_run h (inv0_init n) (inv1_init n) hl).ex hex)
+
+/-! ## the closed flag (`stepC` / `runC`) -/
+
+theorem stepC_of_not_late {ul df s e} (hl : lateCreate s e = false) : stepC ul df s e = step ul df s e := by
+  cases e with
+  | sigint => rfl
+  | exit => rfl
+  | work i =>
+    simp only [lateCreate] at hl
+    simp only [stepC, step, hl]
+    split <;> simp
+
+theorem stepC_of_late {ul df s i} (hl : lateCreate s (.work i) = true) :
+    stepC ul df s (.work i) = if s.exited then none else some { s with phase := s.phase.set i .done } := by
+  simp only [lateCreate] at hl
+  simp only [stepC, hl]
+  split <;> simp
+
+/-- a refused creation keeps both invariants: nothing is created, the worker ends -/
+theorem inv0_refuse {s : St} {i : Nat} (hi : Inv0 s) (hs : s.phase.getD i .done = .start) :
+    Inv0 { s with phase := s.phase.set i .done } := by
+  obtain ⟨l1, l2, hd, hp⟩ := hi
+  refine ⟨by simp [l1], by simp [l2], ?_, ?_⟩
+  · intro j hj
+    have := hd j hj
+    simp only [getD_set]
+    split
+    · rename_i hc
+      obtain ⟨rfl, _⟩ := hc
+      rw [hs] at this
+      exact absurd this.1 (by decide)
+    · exact this
+  · intro j
+    simp only [getD_set]
+    split
+    · exact ⟨by decide, by decide⟩
+    · exact hp j
+
+theorem inv0_stepC {s e s'} (h : stepC true true s e = some s') (hi : Inv0 s) : Inv0 s' := by
+  cases hl : lateCreate s e with
+  | false => rw [stepC_of_not_late hl] at h; exact inv0_step h hi
+  | true =>
+    cases e with
+    | sigint => simp [lateCreate] at hl
+    | exit => simp [lateCreate] at hl
+    | work i =>
+      rw [stepC_of_late hl] at h
+      split at h
+      · cases h
+      · cases h
+        simp only [lateCreate, Bool.and_eq_true, beq_iff_eq] at hl
+        exact inv0_refuse hi hl.2
+
+theorem inv1_stepC {s e s'} (h : stepC true true s e = some s') (h0 : Inv0 s) (h1 : Inv1 s) : Inv1 s' := by
+  cases hl : lateCreate s e with
+  | false => rw [stepC_of_not_late hl] at h; exact inv1_step h h0 h1 hl
+  | true =>
+    cases e with
+    | sigint => simp [lateCreate] at hl
+    | exit => simp [lateCreate] at hl
+    | work i =>
+      rw [stepC_of_late hl] at h
+      split at h
+      · cases h
+      · cases h
+        exact ⟨h1.hr, h1.ex⟩
+
+theorem inv_runC {s evs s'} (h : runC true true s evs = some s') (h0 : Inv0 s) (h1 : Inv1 s) : Inv0 s' ∧ Inv1 s' := by
+  induction evs generalizing s with
+  | nil => simp [runC] at h; subst h; exact ⟨h0, h1⟩
+  | cons e es ih =>
+    unfold runC at h
+    cases hs : stepC true true s e with
+    | none => simp [hs] at h
+    | some s1 => simp only [hs] at h; exact ih h (inv0_stepC hs h0) (inv1_stepC hs h0 h1)
+
+/-- the core of C18 with the closed flag: an exited run leaves nothing, whatever the schedule -/
+theorem leftovers_zero_closed {n evs s} (h : runC true true (init n) evs = some s)
+    (hex : s.exited = true) : leftovers s = 0 :=
+  (leftovers_eq_zero_iff s).2 ((inv_runC h (inv0_init n) (inv1_init n)).2.ex hex)
+
+/-- without SIGINT the closed flag changes nothing -/
+theorem runC_eq_run_of_no_sigint (ul df : Bool) (s : St) (evs : List Ev)
+    (hr : s.handlerRan = false) (hno : Ev.sigint ∉ evs) : runC ul df s evs = run ul df s evs := by
+  induction evs generalizing s with
+  | nil => rfl
+  | cons e es ih =>
+    have he : e ≠ .sigint := fun h => hno (by simp [h])
+    have hes : Ev.sigint ∉ es := fun h => hno (by simp [h])
+    have hl : lateCreate s e = false := by cases e <;> simp [lateCreate, hr]
+    unfold runC run
+    rw [stepC_of_not_late hl]
+    cases hs : step ul df s e with
+    | none => rfl
+    | some s' =>
+      have := handlerRan_of_step hs he
+      exact ih s' (by rw [this, hr]) hes
 
 end S4V.Lemmas.Tmp
